@@ -232,6 +232,7 @@ pub fn base_plan(family: &'static str, role: Role, ch: &mut Choices) -> Plan {
             ack_codes: Vec::new(),
             pubcomp_any_order: false,
             refuse_pubrec: false,
+            ack_props_mode: 0,
             long_acks: false,
             skip_connect: false,
         },
@@ -735,6 +736,11 @@ fn gen_outbound(kind: OutKind, ch: &mut Choices) -> Plan {
     // (MQTT 5) the peer may refuse an exactly-once publish with its PUBREC
     plan.peer.refuse_pubrec = v5 && !plan.peer.ack_codes.is_empty() && matches!(kind, OutKind::C14 | OutKind::C06 | OutKind::C05) && ch.chance(1, 2);
     plan.peer.long_acks = v5 && ch.chance(1, 4);
+    if v5 && matches!(kind, OutKind::C06 | OutKind::C14) && ch.chance(1, 3) {
+        // the peer's acknowledgements carry user properties and a reason string, in either order: they are
+        // part of what the awaiting caller is handed
+        plan.peer.ack_props_mode = 1 + ch.choose(3) as u8;
+    }
     if kind == OutKind::C06 && ch.chance(1, 2) {
         plan.peer.deviation = *ch.pick(&[
             AckDeviation::WrongType,
